@@ -135,6 +135,9 @@ impl Acked {
             self.store.set_cursor(&cursor).await?;
         });
 
+        #[cfg(p2panda_p2panda_verif)]
+        p2panda_core::verif::crash_point("acked.after_set_cursor");
+
         Ok(())
     }
 }
